@@ -25,11 +25,15 @@ subgraph outputs):
                                      matching arities, function outputs visible, pairwise distinct, and none of
                                      them a graph input.  Only hypothesis: Python's rule that parameter names
                                      are distinct;
-* `convert_opsets_single`, `mixed_default_opset_refused` — an accepted function takes every default-domain
-                                     operator from one opset version; mixing versions is a modelled refusal;
-* `wfGraph_sound`                  — the executable checker `wfGraph` (run by the harness on the protos the
-                                     REAL converter emitted, parsed back into `Graph`) implies the
-                                     declarative clauses.
+* `convert_opsets_single`, `mixed_default_opset_refused` — about the SOURCE guard only (`opsetsOK f`): an accepted
+                                     function takes every default-domain call from the version of `default_opset`,
+                                     and mixing versions is the modelled refusal (one is the contrapositive of the
+                                     other); emitted nodes carry no version in the model;
+* `wfGraph_sound`                  — a Bool→Prop reading of the executable checker `wfGraph` (run by the harness on
+                                     the protos the REAL converter emitted, parsed back into `Graph`): Nodup / membership
+                                     clauses; the scoping clause stays `wfNodes … = true` (one-step readings:
+                                     `wfNodes_cons`, `wfNode_if_clauses`; none for `Loop`).  `nodupB_iff`, `allIn_iff`
+                                     are its helper reflections (they sit here and are counted).
 
 Before the two fixes `convert_wf` needed the hypothesis that no parameter is re-assigned and the
 subgraph-distinctness clause was false (findings C01-D26, C01-D30); their witnesses are now positive
@@ -114,8 +118,9 @@ example : (demo.params.map Param.name).Nodup ∧ (convert demo).toOption.isSome 
   · decide
   · decide +kernel
 
-/-- **`convert_opsets_single`: one version of the default-domain opset per accepted function.**  Whatever the
-converter accepts, every call that takes a default-domain operator from an opset object (`op.Add`,
+/-- **`convert_opsets_single`: one version of the default-domain opset per accepted function — a statement about the
+source guard** (`opsetsOK f = true`, the contrapositive of the refusal in `mixed_default_opset_refused`), not about
+versions recorded in the emitted graph (nodes carry none in the model).  Whatever the converter accepts, every call that takes a default-domain operator from an opset object (`op.Add`,
 `opset17.Abs`, …) — at top level, in `if` branches, in loop bodies, in operands of other calls — takes it from
 the opset version `default_opset` has (each emitted node copies its callee's opset version, so all default-domain
 nodes carry that one version).  This is the clause the code enforces (`_set_default_opset`); for other domains
@@ -145,15 +150,19 @@ example :
       ∧ opsetsOK (mk 18) = true ∧ (convert (mk 18)).toOption.isSome = true := by
   refine ⟨by decide, by decide +kernel, by decide, by decide +kernel⟩
 
+/-- Helper reflection: the Bool test `nodupB` is `List.Nodup`. -/
 theorem nodupB_iff (l : List Name) : nodupB l = true ↔ l.Nodup := by
   induction l with
   | nil => simp [nodupB]
   | cons x xs ih => simp [nodupB, ih, List.nodup_cons]
 
+/-- Helper reflection: the Bool test `allIn` is list inclusion. -/
 theorem allIn_iff (xs vis : List Name) : allIn xs vis = true ↔ ∀ x ∈ xs, x ∈ vis := by
   simp [allIn, List.all_eq_true]
 
-/-- **The executable checker means what it says.**  `wfGraph g = true` — which the harness evaluates (in
+/-- **A Bool→Prop reading of the executable checker** (a reflection, not an independent specification: the scoping
+clause below is still the recursive Bool function `wfNodes`; `wfNodes_cons` and `wfNode_if_clauses` read it one step at
+a time, there is no such reading for `Loop` nodes).  `wfGraph g = true` — which the harness evaluates (in
 the compiled Lean driver) on every FunctionProto the real converter emitted — implies: global single
 assignment; scoped definition-before-use with subgraph outputs produced inside their subgraph
 (`wfNodes`); every graph output is visible, outputs are pairwise distinct, and no graph input is
@@ -284,7 +293,8 @@ example :
 
 /-! ### `to_model_proto`: the body as the main graph of a model -/
 
-/-- **A function with a required attribute parameter is not exported as a model** (`ValueError`). -/
+/-- **A function with a required attribute parameter is not exported as a model** (`ValueError`) — a direct
+restatement of the guard at the top of `exportModel` / `to_model_proto`. -/
 theorem export_required_refused (ds : List (Name × Option String)) (g : Graph) (p : Name)
     (h : (p, none) ∈ ds) : exportModel ds g = .error .value := by
   unfold exportModel
